@@ -131,6 +131,28 @@ pub fn main(args: &[String]) {
                 println!("{}\tOK {} {}\t{}", hex(&enc), enc.len(), after, if before == after { "SAME".to_string() } else { format!("DIFF generated value changed by into_owned: before {}", before) });
             }
         }
+        // nesting near the parser's bounds: body-extension lists j deep inside a part that sits k multiparts deep
+        "deep" => {
+            for k in 0..32usize {
+                for j in (0..32usize).filter(|j| k < 4 || k + j >= 26 || *j % 7 == 0) {
+                    let mut part = String::from("(\"TEXT\" \"PLAIN\" NIL NIL NIL \"7BIT\" 1 1 NIL NIL NIL NIL");
+                    if j > 0 {
+                        part.push(' ');
+                        part.push_str(&"(".repeat(j));
+                        part.push_str("7 \"x\"");
+                        part.push_str(&")".repeat(j));
+                    }
+                    part.push(')');
+                    let mut body = part;
+                    for _ in 0..k {
+                        body = format!("({} \"MIXED\")", body);
+                    }
+                    let enc = format!("* 1 FETCH (BODYSTRUCTURE {})\r\n", body).into_bytes();
+                    let (res, verdict) = check_one(&enc, None);
+                    println!("{}\t{}\t{}", hex(&enc), res, verdict);
+                }
+            }
+        }
         "corpus" => {
             let mut line = String::new();
             while std::io::stdin().read_line(&mut line).unwrap_or(0) > 0 {
